@@ -94,11 +94,47 @@ func (r *verifRefP) scalar(i int) (*verifNode, bool) {
 	b := r.buf[p:]
 	switch {
 	case b[0] == '"':
-		// the string ends at the first quote (no escapes inside: assumed by the harness, escapes are lemma S)
+		// the string ends at the first unescaped quote; two-character escapes are decoded (\u escapes are the
+		// string lemmas' business and are excluded by the harnesses that allow backslashes at all)
+		var dec []byte
+		plain := true
 		for j := 1; j < len(b); j++ {
 			if b[j] == '"' {
 				nd := &verifNode{kind: '"', str: b[1:j], size: 2}
+				if !plain {
+					nd.str = dec
+				}
 				return nd, true
+			}
+			c := b[j]
+			if c == '\\' {
+				if plain {
+					dec = append(dec, b[1:j]...)
+					plain = false
+				}
+				if j+1 >= len(b) {
+					return nil, false
+				}
+				j++
+				switch b[j] {
+				case '"', '\\', '/':
+					c = b[j]
+				case 'b':
+					c = '\b'
+				case 'f':
+					c = '\f'
+				case 'n':
+					c = '\n'
+				case 'r':
+					c = '\r'
+				case 't':
+					c = '\t'
+				default:
+					return nil, false
+				}
+			}
+			if !plain {
+				dec = append(dec, c)
 			}
 		}
 		return nil, false
@@ -473,6 +509,57 @@ func verifHarness_P3_Skeleton() {
 		return
 	}
 	verifReach("P3s.accepted")
+	verifAssert(verifWFTape(&pj.ParsedJson, true, false), "the produced tape obeys the documented format")
+	verifCheckRoots(&pj.ParsedJson, roots)
+}
+
+
+// P3.escapes: strings with two-character escapes through stage 2: the Go wrapper of the validating decoder runs for
+// real (it decides from the decoder's two lengths whether the string must be copied), the assembly below it is its
+// reference relation restricted to two-character escapes.
+func verifHarness_P3_Escapes() {
+	w := 4 + verifChoice("w", 4) // quote + 2..5 body bytes + quote
+	obj := verifChoice("obj", 2) == 1
+	var pos []int
+	if obj {
+		pos = []int{0, 1, 1 + w, 2 + w, 2 + 2*w}
+	} else {
+		pos = []int{0, 1, 1 + w}
+	}
+	K := len(pos)
+	N := pos[K-1] + 1
+	msg := nondetBytes("msg", N)
+	want := make([]uint8, N)
+	for _, q := range pos {
+		want[q] = 1
+	}
+	verifAssume(verifScanOK(msg, want, 0) == 1)
+	if obj {
+		verifAssume(msg[0] == '{' && msg[1] == '"' && msg[1+w] == ':' && msg[2+w] == '"' && msg[N-1] == '}')
+	} else {
+		verifAssume(msg[0] == '[' && msg[1] == '"' && msg[N-1] == ']')
+	}
+	for i := 0; i+1 < N; i++ {
+		if verifKnownFinding("never") {
+			break
+		}
+		// \u escapes: lemmas S1-S4
+		verifAssume(!(msg[i] == '\\' && msg[i+1] == 'u'))
+	}
+	pj := &internalParsedJson{}
+	pj.Message = msg
+	pj.initialize(len(msg))
+	pj.copyStrings = verifChoice("copy", 2) == 1
+	verifFillChannel(pj, pos)
+	ok, _ := pj.unifiedMachine()
+	verifReach("P3e.returned")
+	ref := &verifRefP{buf: msg, pos: pos, copyS: pj.copyStrings}
+	roots, refOK := ref.parse()
+	verifAssert(ok == refOK, "stage 2 accepts a string exactly when its escapes are well-formed")
+	if !ok {
+		return
+	}
+	verifReach("P3e.accepted")
 	verifAssert(verifWFTape(&pj.ParsedJson, true, false), "the produced tape obeys the documented format")
 	verifCheckRoots(&pj.ParsedJson, roots)
 }
